@@ -20,6 +20,8 @@ func init() {
 }
 
 func runC17(c *Ctx) {
+	c13Rules(c, "C17")
+	c13Body(c)
 	c.rule("reread-on-every-wakeup", "in the watch loop every select arm that does not return reaches the re-read (Value) before the next wait; only the file-event arm may skip it, and only under its name filter", 5)
 	c.rule("checksum-after-decode", "the checksum of the bytes read is recorded only on the decode-success path, and identical content yields the dedicated unchanged marker (which the loop maps to 'no report')", 2)
 	c.rule("notexist-classification", "whether the config file exists is decided by os.IsNotExist applied to the error of the re-read (which does not unwrap decoder errors); while it does not exist nothing is reported and the loop keeps waiting", 1)
